@@ -111,7 +111,8 @@ def gen(rng, prop=None):
     for t in order:
         if not recs[t] and t != 'IN' and rng.random() < 0.5:
             continue
-        for _ in range(rng.randint(0, 2)):
+        # blank rows before a table: usually a few, sometimes a long gap (a sheet is read to its end however far apart its tables are)
+        for _ in range(rng.randint(0, 2) if rng.random() < 0.85 else rng.choice([12, 99, 100, 101, 150, 400])):
             rows.append([None] * W)
         rows.append([t.lower() if rng.random() < 0.3 else t] + [None] * (W - 1))
         rows.append(['h%d' % c for c in range(W)])
